@@ -351,6 +351,8 @@ class Contract:
         self.call_hook = None
         self.volatile = {}        # field name -> reader(eng, st, obj): fields written by another thread
         self.variants = None      # list of {param: Shape | PNone()} overrides; verified once per variant
+        self.definitions = None       # (ctx) -> definitional axioms of spec functions for the actual arguments (assumed, both sides)
+        self.ghost_after = {}         # source text of a simple statement -> ghost update (eng, state) run after it
         self.assumed_ensures = None   # (ctx) -> clauses assumed at call sites but NOT proved of the body (listed as assumptions)
         self.post_hints = None    # (ctx) -> extra premises (instances of separately proved lemmas)
         self.defaults = {}
@@ -487,8 +489,10 @@ class Engine:
         self.functions = []     # fingerprints of the functions under contract
         self.builtins = {}
         self.reach = {}         # fn -> list of pcs of normal exits (for vacuity probes)
+        self.reach_lines = {}   # fn -> return line of each of those exits
         self.assumed = set()    # trusted contracts used at call sites
-        self.builtin_writes = {'print': ['$out']}   # ghost variables a builtin updates (for loop write sets)
+        self.builtin_writes = {'print': ['$out']}
+        self.inline_ok = set()   # qualnames of straight-line helpers executed inline   # ghost variables a builtin updates (for loop write sets)
         self.stdout_events = []
         from . import builtins as B
         B.install(self)
@@ -535,6 +539,9 @@ class Engine:
                 st.assume(b)
         fc.entry = Ctx(dict(args), eng=self)
         nreq = 0
+        if con.definitions is not None:
+            for b in con.definitions(fc.entry):
+                st.assume(b)
         for nm, b in con.requires(fc.entry):
             st.assume(b)
             nreq += 1
@@ -578,7 +585,9 @@ class Engine:
         if 'self' in con.params:
             after['self'] = st.env['self']
         c = Ctx(fc.entry.args, result=res, after=after, eng=self)
-        self.reach.setdefault(fc.qualname + (fc.short[len(fc.qualname.partition(':')[2]):]), []).append(list(st.pc))
+        rk = fc.qualname + (fc.short[len(fc.qualname.partition(':')[2]):])
+        self.reach.setdefault(rk, []).append(list(st.pc))
+        self.reach_lines.setdefault(rk, []).append(getattr(st, 'ret_line', 'end'))
         hints = list(con.post_hints(c)) if con.post_hints else []
         if hints:
             st = st.fork()
@@ -702,6 +711,13 @@ class Engine:
                 continue
             except RaisePath as rp:
                 outs = [('raise', rp.state, rp.exc)]
+            gh = getattr(fc.con, 'ghost_after', None)
+            if gh and not isinstance(s, (ast.If, ast.For, ast.While, ast.Try, ast.With)):
+                key = ast.unparse(s).strip()
+                if key in gh:
+                    for kind, s2, payload in outs:
+                        if kind == 'next':
+                            gh[key](self, s2)
             for kind, s2, payload in outs:
                 s2.last_line = getattr(s, 'end_lineno', s.lineno)
             results.extend(outs)
@@ -864,7 +880,13 @@ class Engine:
         if s.finalbody:
             raise Unsupported('try/finally')
         outs = []
-        for kind, s2, payload in self.exec_block(s.body, st):
+        catches_key = any(h.type is None or ast.unparse(h.type) in ('KeyError', 'Exception', 'LookupError') for h in s.handlers)
+        self.try_key_depth = getattr(self, 'try_key_depth', 0) + (1 if catches_key else 0)
+        try:
+            body_outs = self.exec_block(s.body, st)
+        finally:
+            self.try_key_depth -= (1 if catches_key else 0)
+        for kind, s2, payload in body_outs:
             if kind != 'raise':
                 if kind == 'next' and s.orelse:
                     outs.extend(self.exec_block(s.orelse, s2))
@@ -1017,7 +1039,7 @@ class Engine:
                     return Contract.registry.get('%s.%s' % (obj.cls, f.attr))
             return None
 
-        for n in ast.walk(ast.Module(body=body, type_ignores=[])):
+        for n in self._nodes_reaching_back_edge(body):
             if isinstance(n, ast.Assign):
                 for t in n.targets:
                     note(t)
@@ -1049,7 +1071,7 @@ class Engine:
                         if k.arg in con.mutates:
                             note(k.value)
                     for p in con.params:
-                        if p.startswith('$') and p != '$quit':
+                        if p.startswith('$') and p not in ('$quit', '$pw'):
                             res.add((p,))
                     if 'self' in con.params and con.self_modifies and isinstance(n.func, ast.Attribute):
                         for fld in con.self_modifies:
@@ -1060,6 +1082,51 @@ class Engine:
                     else:
                         note(ast.parse(h, mode='eval').body)
         return res
+
+    def _nodes_reaching_back_edge(self, body):
+        """AST nodes of a loop body that lie on some path to the loop's back edge (computed backwards: a simple
+        statement counts iff control after it can still reach the back edge by falling off the body or a `continue`).
+        Writes on paths that always end in return/raise/break need not be havocked at the loop head; the exit states
+        of those paths carry their own values."""
+        out = []
+
+        def walk(stmts, reach_after, brk=False, cont=True):
+            r = reach_after
+            for st in reversed(stmts):
+                if isinstance(st, (ast.Return, ast.Raise)):
+                    r = False
+                elif isinstance(st, ast.Break):
+                    r = brk
+                elif isinstance(st, ast.Continue):
+                    r = cont
+                elif isinstance(st, ast.If):
+                    rb = walk(st.body, r, brk, cont)
+                    ro = walk(st.orelse, r, brk, cont) if st.orelse else r
+                    if rb or ro:
+                        out.extend(ast.walk(st.test))
+                    r = rb or ro
+                elif isinstance(st, ast.With):
+                    rb = walk(st.body, r, brk, cont)
+                    if rb:
+                        for it in st.items:
+                            out.extend(ast.walk(it))
+                    r = rb
+                elif isinstance(st, (ast.For, ast.While)):
+                    # nested loop: its statements reach the outer back edge only through the loop's exit (end of an
+                    # iteration when the condition fails, `continue`, or `break`), all of which lead to `r`
+                    rb = walk(st.body, r, brk=r, cont=r)
+                    if rb or r:
+                        out.extend(ast.walk(st.test) if isinstance(st, ast.While) else list(ast.walk(st.iter)) + list(ast.walk(st.target)))
+                elif isinstance(st, ast.Try):
+                    out.extend(ast.walk(st))      # try: conservative
+                    r = True
+                else:
+                    if r:
+                        out.extend(ast.walk(st))
+            return r
+
+        walk(body, True)
+        return out
 
     def _havoc(self, st, writes, spec, tag):
         paths = sorted(writes, key=len)
@@ -1508,7 +1575,14 @@ class Engine:
                 kt = box(k, sh.k)
                 if getattr(sh, 'counter', False):
                     return unbox(z3.If(sh.has(c.term, kt), sh.get(c.term, kt), z3.IntVal(0)), sh.v)
-                if safe:
+                if safe and getattr(self, 'try_key_depth', 0) > 0:
+                    # inside a try that catches KeyError: both outcomes are explored
+                    k2 = st.choose(2)
+                    if k2 == 1:
+                        st.assume(z3.Not(sh.has(c.term, kt)))
+                        raise RaisePath(st, 'KeyError')
+                    st.assume(sh.has(c.term, kt))
+                elif safe:
                     self.safety(st, sh.has(c.term, kt), 'key', node)
                 return unbox(sh.get(c.term, kt), sh.v)
             if sh == TStr:
@@ -1702,6 +1776,10 @@ class Engine:
         m = sh.len(v.term)
         i0 = self.as_int(self.eval(sl.lower, st))
         i = simp(z3.If(i0 > n, n, i0))
+        if _has_ite(i):
+            k = z3.Int(fresh_name('idx'))
+            st.assume(k == i)
+            i = k
         self.safety(st, i0 >= 0, 'index', node)
         res = T.list_fn('lsplice', sh, [T.IntS, sh.sort()])(c.term, i, v.term)
         j = z3.Int('j!p')
